@@ -443,7 +443,10 @@ class Parser:
     def _rvalue_expr(self, dest, code_gen):
         if not ExpressionParser(self).expression():
             return False
-        code_gen.pop(dest)
+        if dest is not OpCode.PUSH:
+            # Curly braces inside an expression: the value stays on the stack
+            # as an operand of the enclosing expression.
+            code_gen.pop(dest)
         return True
 
     def _at_rvalue(self, include_reg=True) -> bool:
